@@ -153,6 +153,16 @@ ADDENDA = {
     'C20': "The class path covers rename=, in_rename=, dict(rename=), dict(set_only=True, rename=) and field(out_name=) under a class style; history-dependent witnesses (a memo keyed too coarsely) are confirmed by re-running the originating shard. dict(rename=<every other style>) on classes with their own style; malformed field names through the class path.",
 }
 
+ADDENDA6 = {
+    'C01': "Fixtures include a generic dataclass nested in a subscripted generic dataclass, tagged unions inside a tuple-layout class, list-of-dataclass / mapping-of-list fields and a class that inherits its hook.",
+    'C02': "Call modes plain / custom / yaml / json / construct; data include one-byte bytes and bytearray values; numpy scalar targets.",
+    'C10': "Thread scenarios include two threads converting ONE shared value object; a separate shard runs reader-call histories and multi-document unions in both member orders.",
+    'C11': "Serialisation is judged without data: the output for a typed value must be the serialisation by a member that reads it back.",
+    'C12': "A variant and its subclass that inherit one tag value must be refused when the type is built.",
+    'C14': "A derived class that inherits a raising / assigning __post_init__ is explored like its base.",
+    'C17': "Form 'regeneric': a generic class whose field is another generic class re-parameterised with the outer variable.",
+}
+
 PENDING_REASON = "check not built yet (work in progress; planned as bounded-exhaustive model checking, see DESIGN.md section 3)"
 
 def main():
@@ -162,7 +172,7 @@ def main():
         if pid not in CHECKS:
             continue
         tech, text, note = CHECKS[pid]
-        text = text + ' ' + ADDENDA.get(pid, '')
+        text = (text + ' ' + ADDENDA.get(pid, '') + ' ' + ADDENDA6.get(pid, '')).strip()
         checks.append({
             'property_id': pid,
             'quick_cmd': f'./check {pid} --tier quick',
